@@ -189,7 +189,7 @@ PROPS = {
         ],
         'explanation': 'Verus proof on the real Fold::next that each iteration yields exactly the sequential left fold of its items (user closure = assumed function), plus a pure lemma that the '
                        'two-phase (local pre-aggregation, then global) form equals the sequential fold for every partition of the input, empty partitions included.',
-        'assumptions': ['KeyedFold: std HashMap by its map view, Entry API replaced by its definition (unit keyed_fold)', 'group_by_min/max_element closures (generic Ord comparison) and the final float division of avg are not covered'],
+        'assumptions': ['KeyedFold: std HashMap by its map view, Entry API replaced by its definition (unit keyed_fold)', 'totality / transitivity of the user Ord behind group_by_min/max_element and the final float division of avg are not covered'],
     },
     'C14': {
         'level': 'proof',
